@@ -39,7 +39,6 @@ PARTIAL = [
     "RulesSound is discharged (C01_fragment_rules_sound; C01_fragment_optimize_sound / _no_new_failure have no hypothesis on the rules) ONLY for the fragment: classes FromPandas, Projection (list and scalar), Abs/Neg/Pos/Invert, Binop with a python scalar on the right, Binop of two expressions over one frame (incl. And/Or of predicates), Assign, RenameFrame (dict), Filter, Merge on columns (inner/left/right/outer), Concat(axis=0, outer/inner); rules Projection._simplify_down, Assign._simplify_down, BlockwiseIO._simplify_up[Projection], plain_column_projection (Blockwise pass-through, Unaryop), Binop._simplify_up, Assign._simplify_up, RenameFrame._simplify_up, Filter._simplify_up (OR factoring for any parent; Projection branch), Merge._simplify_up[Projection], Concat._simplify_up. For every other class the soundness of each concrete rule stays the hypothesis RulesSound; the T3 trace says which firings belong to families with Lean soundness theorems",
     "not in the fragment's rule system (the model returns none where the real rule may fire; the family's query generator avoids these shapes): squashing two consecutive Filters, Filter push-down into a Merge, the Projection branch of a Filter whose frame is a Filter or Merge (its guard needs is_filter_pushdown_available), Index parents; every _lower / _tune_* rule and blockwise fusion (fragRules has none: in the fragment theorems the stages after simplify are the identity)",
     "side conditions that are part of the fragment's definedness (an expression violating them denotes nothing, decidable by fragWF = schemaOf defined; the theorems say nothing about it): labels duplicate-free and present; Binop of two frames only with equal label lists (open finding D39, C01_fragment_binop_labels_counterexample); Merge only when the join keys are columns, a key of one side does not collide with a non-key column of the other (open finding D34, C01_fragment_merge_collision_counterexample) and the result labels are duplicate-free; rename without label collisions; Assign values and Filter predicates are Series expressions; a row-wise Concat needs an input with columns, and with join='inner' every input must have columns (Concat._meta leaves inputs without columns out when it declares the labels, so dask-expr declares and computes the labels of the remaining inputs where pandas computes none)",
-    "the C04 value theorems for Merge (C04_merge_values_*_partial) are stated over the structure MergeOp, whose laws quantify over frames with colliding result labels and are only satisfiable by degenerate joins; the fragment proof uses C04_merge_wf, C04_merge_labels_partial and the lemmas behind the value theorems directly on the fragment's join. AssignOp.op_cols orders duplicate new keys by last occurrence, methods.assign by first occurrence: the fragment uses the real order (only the label order of an Assign with repeated keys differs)",
 ]
 EXPLANATION = (
     "Theorems: every driver (rewrite, simplify_once with its cache and bandaid-extended dependents map, simplify, lower_once, "
@@ -840,8 +839,8 @@ def extra_programs():
         mk("parquet_arrow_ne_or", lambda t: (lambda r: r[(r.c != 1.0) | (r.b == 2)][["a", "c"]])(_parquet()), noindex=True),
         mk("parquet_arrow_gt_proj", lambda t: (lambda r: r[r.a > 3][["b"]])(_parquet()), noindex=True),
         # a selection that can still be narrowed above an already LOWERED concat in the second simplify pass (D110)
-        mk("nested_inner_concat_filter", lambda t: (lambda z: z[z.a > 3])(programs._concat(
-            [L(t).merge(programs._concat([L(t).merge(R(t), on="b"), R(t)], join="inner"), on="b"), L(t)], join="inner")),
+        mk("nested_inner_concat_filter", lambda t: (lambda r: (lambda z: z[z.a > 3])(programs._concat(
+            [L(t).merge(programs._concat([L(t).merge(r, on="b"), r], join="inner"), on="b"), L(t)], join="inner")))(R(t).rename(columns={"c": "k"})),
            unordered=True, noindex=True),
         # two same-sized partition selections of ONE from_pandas source with unknown divisions (rows per partition 3,3,2):
         # sizes / lengths are answered from the reader's metadata for each selection separately
